@@ -50,7 +50,7 @@ def cam(rng, station=None, with_lf=None, with_special=None):
                  "camParameters": {
                      "basicContainer": {"stationType": rng.choice((1, 5, 5, 6, 15)),
                                         "referencePosition": {"latitude": LDM_LAT + rng.randrange(-50000, 50000), "longitude": LDM_LON + rng.randrange(-50000, 50000),
-                                                              "altitude": {"altitudeValue": rng.randrange(0, 5000), "altitudeConfidence": "unavailable"}}},
+                                                              "altitude": {"altitudeValue": rng.choice((-2, -1, -1, 0, rng.randrange(0, 5000), rng.randrange(-100, 5000))), "altitudeConfidence": "unavailable"}}},
                      "highFrequencyContainer": ["basicVehicleContainerHighFrequency",
                                                 {"heading": {"headingValue": rng.randrange(3601), "headingConfidence": 127},
                                                  "speed": {"speedValue": rng.choice((0, 0, 1, 500, 1389, 16383, rng.randrange(16383))), "speedConfidence": 127},
